@@ -26,14 +26,16 @@ pub fn def() -> PropDef {
 fn plan(tier: Tier) -> Vec<Unit> {
     match tier {
         Tier::Quick => {
-            let mut v = crate::util::split_budget("round", 60_000, 1_000);
+            let mut v = crate::util::split_budget("round", 200_000, 2_000);
             v.extend(crate::util::split_budget("allp", 6_000, 200));
-            v.extend(crate::util::split_budget("sums", 40_000, 1_000));
+            v.extend(crate::util::split_budget("ties", 150_000, 2_000));
+            v.extend(crate::util::split_budget("sums", 150_000, 2_000));
             v
         }
         Tier::Thorough => {
             let mut v = crate::util::split_budget("round", 6_000_000, 10_000);
             v.extend(crate::util::split_budget("allp", 400_000, 2_000));
+            v.extend(crate::util::split_budget("ties", 4_000_000, 10_000));
             v.extend(crate::util::split_budget("sums", 4_000_000, 10_000));
             v
         }
@@ -58,6 +60,31 @@ fn run_unit(unit: &Unit, r: &mut Rng, ctx: &mut Ctx) {
                     2 => nd + 1 + r.below(5),
                     _ => 1 + r.below(nd + 5),
                 };
+                let mode = *r.pick(&MODES);
+                let case = Case::new("round").push(d.tok()).push(p).push(mode_name(mode));
+                check_case(&case, ctx);
+            }
+        }
+        "ties" => {
+            // head of exactly p digits, then a tail of chosen length L in one of the critical shapes;
+            // L is uniform so that every tail length up to 1200 is visited (digit-estimate boundaries)
+            for _ in 0..unit.count {
+                let p = 1 + r.below(40);
+                let head = gen::digit_string(r, p as usize);
+                let l = if r.bool() { 1 + r.below(1200) as usize } else { 1 + r.below(160) as usize };
+                let tail = match r.below(8) {
+                    0 => format!("5{}", "0".repeat(l - 1)),
+                    1 => format!("4{}", "9".repeat(l - 1)),
+                    2 => format!("5{}1", "0".repeat(l.saturating_sub(2))),
+                    3 => format!("{}1", "0".repeat(l - 1)),
+                    4 => "9".repeat(l),
+                    5 => { let z = r.below(l as u64) as usize; format!("49{}{}", "9".repeat(z), gen::digit_string(r, (l - z.min(l - 1)).max(1))) }
+                    6 => { let z = r.below(l as u64) as usize; format!("5{}{}", "0".repeat(z), gen::digit_string(r, (l - z.min(l - 1)).max(1))) }
+                    _ => format!("0{}", gen::digit_string(r, l)),
+                };
+                let head = if r.chance(1, 5) { "9".repeat(p as usize) } else { head };
+                let n: BigInt = format!("{}{}", head, tail).parse().unwrap();
+                let d = Dec::new(if r.bool() { -n } else { n }, r.range(-50, 1500));
                 let mode = *r.pick(&MODES);
                 let case = Case::new("round").push(d.tok()).push(p).push(mode_name(mode));
                 check_case(&case, ctx);
